@@ -14,7 +14,7 @@ def run(check, pool, Task):
     validate.apply(check, ['box_kernels', 'bounds_kernels', 'measures', 'point_kernels'])
     thorough = check.tier == 'thorough'
     small = [d for d in W.DERIVS if not d.startswith('big:')]
-    derivs = small if thorough else W.QUICK_DERIVS + ['slice[1:][1:]', 'mask', 'step[::2]', 'take[-2,-1]', 'take[-1,0,1]', 'getitem[[-2,-1]]', 'slice[::-2]', 'iter', 'slice[3:1]', 'slice[-1:2]']
+    derivs = small if thorough else W.QUICK_DERIVS + ['slice[1:][1:]', 'mask', 'step[::2]', 'take[-2,-1]', 'take[-1,0,1]', 'getitem[[-2,-1]]', 'slice[::-2]', 'iter', 'slice[3:1]', 'slice[-1:2]', 'slice[3::-2]']
     check.bounds.update({'arrays': '5 elements per kind incl. one missing and one empty element', 'derivations': derivs,
                          'depth': 'histories of depth <= 3 (e.g. pickle(slice)[1:], take(concat), slice[1:][1:])',
                          'quantities': list(ALLQ) + ['PointArray.intersects(shape)', 'hilbert_distance (under C08)'],
@@ -25,7 +25,7 @@ def run(check, pool, Task):
     W.run_arrays(check, pool, Task, 'C16', ALLQ, derivs=['slice[1:]', 'take_fill[0,NA,2]'] if not thorough else ['slice[1:]', 'take_fill[0,NA,2]', 'concat[2:]+[:2]', 'pickle(slice)[1:]'],
                  dtypes=('int32', 'float32') if not thorough else W.DTYPES_ALL[1:])
     W.run_arrays(check, pool, Task, 'C16', ('isna', 'bounds', 'length', 'intersects_bounds'), kinds=list(W.BIG) if thorough else ['point', 'line', 'polygon'],
-                 derivs=W.BIG_DERIVS if thorough else ['big:slice[8:]', 'big:slice[3:][5:]', 'big:slice[16:]', 'big:pickle(slice[8:])'], label='wrappers-big')
+                 derivs=W.BIG_DERIVS if thorough else ['big:slice[8:]', 'big:slice[3:][5:]', 'big:slice[16:]', 'big:pickle(slice[8:])', 'big:slice[::-2]'], label='wrappers-big')
     W.run_point_intersects(check, pool, Task, 'C16')
     try:
         from . import c08
